@@ -908,6 +908,12 @@ def _run_history(desc):
 def eval_cases(ctx, descs):
   cases = []
   for d in descs:
+    if d.get("kind") in ("init_tie", "e2e_tie") and "desc" in d:
+      # replay of a finding of the initial-value / end-to-end description ties (harness/props/c03_init.py)
+      import sys
+      from props import c03_init
+      cases.append(c03_init.replay_case(ctx, d, sys.modules[__name__]))
+      continue
     fails, terms, nonconst, diverged, notes = _run_history(d)
     other = [f for f in fails if f[0] != "d32"]
     pred_fail, fail_class = None, None
